@@ -8,7 +8,7 @@
 from collections import defaultdict
 import enum
 from functools import reduce
-from math import gcd, floor
+from math import gcd, floor, ceil
 import operator as _op
 import pymbolic.primitives as pmbl
 
@@ -762,7 +762,11 @@ def get_pyrange(loop_range: sym.LoopRange):
     LEM = LokiEvaluationMapper()
     if loop_range.step is None:
         return range(LEM(loop_range.start), floor(LEM(loop_range.stop))+1)
-    return range(LEM(loop_range.start), floor(LEM(loop_range.stop))+1, LEM(loop_range.step))
+    step = LEM(loop_range.step)
+    if step < 0:
+        # A loop with negative stride counts down to and including the stop value
+        return range(LEM(loop_range.start), ceil(LEM(loop_range.stop))-1, step)
+    return range(LEM(loop_range.start), floor(LEM(loop_range.stop))+1, step)
 
 
 
